@@ -207,6 +207,8 @@ class Spec:
         self.Hh = i.halo if i.halo is not None else sym.smax(i.xmx, i.ymx)
         self.t = i.nz - 1
         self.two_pi = 2 * transc.PI()
+        self.prop = IVP.prop_entry        # ghost propagator (relational lemmas substitute it)
+        self.lam_override = None
 
     def kx(self, i):
         return self.two_pi * sf(i, self.nxe) / (self.dx * self.nxe)
@@ -218,11 +220,15 @@ class Spec:
         mx, my = sf(i, self.nxe), sf(j, self.nye)
         return (2 * mx >= -self.nlx) & (2 * mx < self.nlx) & (2 * my >= -self.nly) & (2 * my < self.nly)
 
-    def lam(self, j, i):
+    def lam_arg(self, j, i):
         u, v, Kx, Ky, Kz = [a.at(self.t) for a in self.inp.prof]
         kx, ky = self.kx(i), self.ky(j)
-        w = (Cx(Kx * kx ** 2 + Ky * ky ** 2, u * kx + v * ky)) / Kz
-        return transc.sqrt(w)
+        return (Cx(Kx * kx ** 2 + Ky * ky ** 2, u * kx + v * ky)) / Kz
+
+    def lam(self, j, i):
+        if self.lam_override is not None:
+            return self.lam_override(j, i)
+        return transc.sqrt(self.lam_arg(j, i))
 
     def source(self, j, i, T0):
         if self.inp.cfg.footprint:
@@ -248,7 +254,7 @@ class Spec:
             h = inp.z.at(l) - inp.z.at(0)
             Hq = transc.exp(-lam * h)
             return Hq / (Kzt * lam), Hq
-        P = lambda a, b, ll: IVP.prop_entry(a, b, ll, kx, ky)  # noqa: E731
+        P = lambda a, b, ll: self.prop(a, b, ll, kx, ky)  # noqa: E731
         t = self.t
         den = P(2, 1, t) - Kzt * lam * P(1, 1, t)
         nm = P(2, 2, t) - Kzt * lam * P(1, 2, t)
